@@ -41,11 +41,11 @@ func init() {
 var optCover = []int{0, 127, 1, 2, 4, 8, 16, 32, 64, 1 | 2 | 4, 2 | 16, 2 | 4 | 8, 1 | 2 | 64, 8 | 32 | 64, 1 | 4 | 16 | 32, 127 ^ 2}
 
 var optAlpha = map[string][]rune{
-	"generic":    {'a', '1', '.', '-', '\'', '#', ' ', '\n', '\r', 0x1F600},
-	"expression": {'a', '1', '.', '/', '*', '\'', '"', ' ', '\n', '\r', 0x1F600},
-	"csv":        {'a', ',', '"', '\r', '\n', 0x416},
-	"mustache":   {'a', '{', '}', '#', ' ', '\n', '"', 0x1F600},
-	"generic-custom": {'a', '=', ':', '<', '!', '-', '>', ' ', '\n'},
+	"generic":            {'a', '1', '.', '-', '\'', '#', ' ', '\n', '\r', 0x1F600},
+	"expression":         {'a', '1', '.', '/', '*', '\'', '"', ' ', '\n', '\r', 0x1F600},
+	"csv":                {'a', ',', '"', '\r', '\n', 0x416},
+	"mustache":           {'a', '{', '}', '#', ' ', '\n', '"', 0x1F600},
+	"generic-custom":     {'a', '=', ':', '<', '!', '-', '>', ' ', '\n'},
 	"generic-arrows":     {'a', 0x2192, 0x3000, 0x416, ' ', '\'', '#'},
 	"csv-wide":           {'a', 0xff1b, 0xab, '"', '\r', '\n', 0x416},
 	"generic-quotes":     {'a', 0xab, 0x201c, '\'', ' ', '#', '\n'},
@@ -58,24 +58,24 @@ var optSnippets = map[string][]string{
 	"generic": {"a  # c\n  b", "x 😀  'q' 1 2.5 # end", "a\r\n\r\n 'it' \"s\"\n\r-1 .5", "😀 😀  a", "# only\n# two\n", " \n 'multi\nline' x"},
 	"expression": {"a /* c */ b", "a  /* c */  b /* d */\n  c", "1 /*x*/ 2.5e3 'it''s' \"q\"\"r\" 😀 ", "/* c */ /* d */ x", "a\r\n+ 'b'\n\r/*\n*/ 7",
 		"😀/**/ 😀 1", " /**/ ", "x /* unterminated"},
-	"csv":      {"a,b\r\n\"c,d\",\"e\"\"f\"\n", "\"x\"\r\"y\"\n\r\"\"", "a,\"multi\nline\",b\rc"},
-	"generic-custom": {"a =:= b\n=: c", "<!-- x\n--> !>>> !>>\n!"},
+	"csv":                {"a,b\r\n\"c,d\",\"e\"\"f\"\n", "\"x\"\r\"y\"\n\r\"\"", "a,\"multi\nline\",b\rc"},
+	"generic-custom":     {"a =:= b\n=: c", "<!-- x\n--> !>>> !>>\n!"},
 	"generic-arrows":     {"страна a → b\u3000\u3000x→→y ← # c\n→", "日本\u3000語 → 'q→' 12  "},
 	"csv-wide":           {"日本；語；«q；»»r«\r\nстрана；\"x\"\"y\"；；\n", "a,b；c\r«open；", "«a««b«；«««"},
 	"generic-quotes":     {"a «b  c« “d“ 'e' \"f\" # c\n«open", "x«« ““y «'« “\"“ \uffff"},
 	"generic-unknownsym": {"a ? b ?! c !? <= ? # c\n?", "??!?\uffff?# c\n? ?"},
 	"expression-custom":  {"a->b => c-- -= -1 /* c */ - 2 --3 'q'", "x-->y  -=- 1e-5\n->"},
 	"generic-2quotes":    {"a `b``c` 'd' \"e\" # c\n`open", "`` ```` `'`  '`' x"},
-	"mustache": {"a {{ \"}}\" x }} b {{ '}}}' }}} c {{ '{{' }}", "Hello, {{ Name }}!\n{{#if a}} x {{/if}}", "{{ 'q'  \"r\" }} t {{{ b }}}", "a\r\n{{ b 😀 c }}\n d", "{{a}}{{b}} {{ c  d }}"},
+	"mustache":           {"a {{ \"}}\" x }} b {{ '}}}' }}} c {{ '{{' }}", "Hello, {{ Name }}!\n{{#if a}} x {{/if}}", "{{ 'q'  \"r\" }} t {{{ b }}}", "a\r\n{{ b 😀 c }}\n d", "{{a}}{{b}} {{ c  d }}"},
 }
 
 // one lexeme of every token class per tokenizer, including the skippable ones (comment, whitespace, unknown character)
 var optLexemes = map[string][]string{
-	"generic":        {"a", "1", "2.5", "'q'", "# c", " ", "\n", "\r\n", "😀", "<=", "-"},
-	"expression":     {"a", "1", "2.5e1", "'q''r'", "\"w\"", "/*c*/", "/*\n*/", " ", "\n", "😀", "<=", "NOT"},
-	"csv":            {"a", ",", "\"q\"\"r\"", "\r\n", "\n", "😀", "\"\""},
-	"mustache":       {"text", "{{", "}}", "{{{", "}}}", "a", " ", "\n", "😀", "'q'", "#", "\"}}\"", "'}}}'", "'{{'"},
-	"generic-custom": {"a", "=:=", "=:", " ", "\n", "😀", "<!--", "# c"},
+	"generic":            {"a", "1", "2.5", "'q'", "# c", " ", "\n", "\r\n", "😀", "<=", "-"},
+	"expression":         {"a", "1", "2.5e1", "'q''r'", "\"w\"", "/*c*/", "/*\n*/", " ", "\n", "😀", "<=", "NOT"},
+	"csv":                {"a", ",", "\"q\"\"r\"", "\r\n", "\n", "😀", "\"\""},
+	"mustache":           {"text", "{{", "}}", "{{{", "}}}", "a", " ", "\n", "😀", "'q'", "#", "\"}}\"", "'}}}'", "'{{'"},
+	"generic-custom":     {"a", "=:=", "=:", " ", "\n", "😀", "<!--", "# c"},
 	"generic-arrows":     {"a", "→", "→←", "\u3000", " ", "ж", "# c", "'q→'", "😀"},
 	"csv-wide":           {"a", "；", "«q««r«", "\"q\"", "\r\n", "ж", "««", "😀"},
 	"generic-quotes":     {"a", "«q r«", "“q“", "'q'", " ", "# c", "😀", "\n"},
